@@ -1064,6 +1064,14 @@ func (x *Exec) onChanSend(fr *Frame, st *State, ch *Term, v Val, et types.Type, 
 			st.setH(ln, mkStore(st.H(ln, arraySort(sortInt, sortInt)), ch, p.Ref))
 		}
 	}
+	// assertions of the sending function about this particular send (its locals are visible)
+	if fr != nil && x.dry == 0 {
+		if ccon := x.env.con.Funcs[x.env.keyOf(rootFn(fr.fn))]; ccon != nil {
+			for _, cl := range ccon.CallSites["chan:"+key] {
+				x.assertClause(st, "callsite", "send on "+key+": ", x.clauseEnv(fr, st, map[string]cvar{"msg": {v: v, t: et}}), cl, in.Pos())
+			}
+		}
+	}
 	con := x.env.con.Callbacks["chan:"+key]
 	if con == nil {
 		return
